@@ -283,6 +283,7 @@ type Config struct {
 	SettingEdits bool    `json:"settingEdits"`
 	EDSDelete    bool    `json:"edsDelete"`
 	StrategyEdits bool   `json:"strategyEdits"`
+	MigrationEdits bool  `json:"migrationEdits,omitempty"` // the old-daemonset annotation is removed / put back
 	Policy       string  `json:"policy"` // uniform, chaser, starver
 	Starve       string  `json:"starve,omitempty"`
 	MapOrder     int     `json:"mapOrder"` // 0 seeded, 1 canonical, 2 reverse
